@@ -1,1 +1,378 @@
-fn main() {}
+//! C18 — MIP two-level optimizers return exact covers of minimum gate cost (DESIGN.md section 3, C18).
+//!
+//! Oracle: exact optimum by shortest path (Dijkstra) over covering / residual states, independent of
+//! any MIP formulation.  Only costs are compared, never the forms (ties are legitimate).
+
+use std::collections::{BinaryHeap, HashMap, HashSet};
+
+use volute::sop::optim::{optimize_esop_mip, optimize_sop_mip, optimize_sopes_mip};
+use volute::sop::{Cube, Ecube, Esop, Soes, Sop};
+use volute::Lut;
+
+use vmon::twolevel::{all_cubes, CubeM, EcubeM};
+use vmon::*;
+
+const RULE: &str = "event = one call of optimize_sop_mip / optimize_sopes_mip / optimize_esop_mip on a list of 1..3 functions \
+with a gate-cost triple; monitors: one form per function, each denoting exactly its function on every assignment, \
+every Sop cube and Soes term an implicant, and the total cost under the documented model (gates of the distinct \
+cubes, shared between outputs, plus one OR/XOR per extra cube in each output, weighted) equal to the optimum \
+found by an exhaustive shortest-path search over covering states (SOP/SOPES) or residual functions (ESOP). \
+n<=2 with 1..2 outputs exhaustively, all single functions of n=3, sampled lists for n=3 (2 outputs), n=4 (1 \
+output), n<=2 (3 outputs). non-trivial = some function neither constant nor literal; distinct = distinct \
+(optimizer, n, functions, costs)";
+
+type Mask = u32; // subset of the 2^n <= 16 assignments
+
+fn sat_mask(n: usize, f: impl Fn(u64) -> bool) -> Mask {
+    let mut m = 0;
+    for a in 0..(1u64 << n) {
+        if f(a) {
+            m |= 1 << a;
+        }
+    }
+    m
+}
+
+fn gates(lits: usize) -> i64 {
+    std::cmp::max(lits, 1) as i64 - 1
+}
+
+/// States are packed: output j occupies bits 16*j .. 16*j+15 (at most 3 outputs of at most 16 assignments),
+/// the "already has a cube" flags of the ESOP search sit above bit 48.
+fn get(st: u64, j: usize) -> Mask {
+    ((st >> (16 * j)) & 0xffff) as Mask
+}
+
+fn pack(ms: &[Mask]) -> u64 {
+    assert!(ms.len() <= 3, "harness: at most 3 outputs");
+    ms.iter().enumerate().fold(0u64, |a, (j, m)| a | ((*m as u64) << (16 * j)))
+}
+
+/// Optimum of the SOP (xor_cost = None) or SOPES problem.  State: covered part of each on-set.
+fn optimum_cover(n: usize, fs: &[Mask], and_cost: i64, xor_cost: Option<i64>, or_cost: i64) -> (i64, u64) {
+    // terms: (satisfying set, gate cost)
+    let mut terms: Vec<(Mask, i64)> = Vec::new();
+    for c in all_cubes(n) {
+        terms.push((sat_mask(n, |a| c.sat(a)), and_cost * gates(c.lits())));
+    }
+    if let Some(xc) = xor_cost {
+        for vars in 0..(1u32 << n) {
+            for xnor in [false, true] {
+                let e = EcubeM { vars, xnor };
+                let s = sat_mask(n, |a| e.sat(a));
+                if s != 0 {
+                    terms.push((s, xc * gates(vars.count_ones() as usize)));
+                }
+            }
+        }
+    }
+    let k = fs.len();
+    let goal = pack(fs);
+    let mut dist: HashMap<u64, i64> = HashMap::new();
+    let mut heap: BinaryHeap<std::cmp::Reverse<(i64, u64)>> = BinaryHeap::new();
+    dist.insert(0, 0);
+    heap.push(std::cmp::Reverse((0, 0)));
+    let mut expanded = 0u64;
+    while let Some(std::cmp::Reverse((d, st))) = heap.pop() {
+        if dist.get(&st).copied().unwrap_or(i64::MAX) < d {
+            continue;
+        }
+        if st == goal {
+            return (d, expanded);
+        }
+        expanded += 1;
+        for (s, g) in &terms {
+            // outputs for which the term is an implicant and adds something
+            let mut usable = [0usize; 3];
+            let mut nu = 0;
+            for j in 0..k {
+                if s & !fs[j] == 0 && s & !get(st, j) != 0 {
+                    usable[nu] = j;
+                    nu += 1;
+                }
+            }
+            for sub in 1u32..(1 << nu) {
+                let mut nst = st;
+                let mut cost = *g;
+                for (b, j) in usable.iter().take(nu).enumerate() {
+                    if (sub >> b) & 1 == 1 {
+                        if get(st, *j) != 0 {
+                            cost += or_cost;
+                        }
+                        nst |= (*s as u64) << (16 * j);
+                    }
+                }
+                let nd = d + cost;
+                if nd < dist.get(&nst).copied().unwrap_or(i64::MAX) {
+                    dist.insert(nst, nd);
+                    heap.push(std::cmp::Reverse((nd, nst)));
+                }
+            }
+        }
+    }
+    panic!("harness: cover oracle found no solution");
+}
+
+/// Optimum of the ESOP problem.  State: residual function of each output + "already has a cube" flags.
+fn optimum_esop(n: usize, fs: &[Mask], and_cost: i64, xor_cost: i64) -> (i64, u64) {
+    let terms: Vec<(Mask, i64)> = all_cubes(n).iter().map(|c| (sat_mask(n, |a| c.sat(a)), and_cost * gates(c.lits()))).collect();
+    let k = fs.len();
+    let start = pack(fs);
+    let mut dist: HashMap<u64, i64> = HashMap::new();
+    let mut heap: BinaryHeap<std::cmp::Reverse<(i64, u64)>> = BinaryHeap::new();
+    dist.insert(start, 0);
+    heap.push(std::cmp::Reverse((0, start)));
+    let mut expanded = 0u64;
+    while let Some(std::cmp::Reverse((d, st))) = heap.pop() {
+        if dist.get(&st).copied().unwrap_or(i64::MAX) < d {
+            continue;
+        }
+        if st & 0xffff_ffff_ffff == 0 {
+            return (d, expanded);
+        }
+        expanded += 1;
+        for (s, g) in &terms {
+            for sub in 1u32..(1 << k) {
+                let mut nst = st;
+                let mut cost = *g;
+                for j in 0..k {
+                    if (sub >> j) & 1 == 1 {
+                        if (st >> (48 + j)) & 1 == 1 {
+                            cost += xor_cost;
+                        }
+                        nst |= 1u64 << (48 + j);
+                        nst ^= (*s as u64) << (16 * j);
+                    }
+                }
+                let nd = d + cost;
+                if nd < dist.get(&nst).copied().unwrap_or(i64::MAX) {
+                    dist.insert(nst, nd);
+                    heap.push(std::cmp::Reverse((nd, nst)));
+                }
+            }
+        }
+    }
+    panic!("harness: esop oracle found no solution");
+}
+
+fn fmask(n: usize, blocks: &[u64]) -> Mask {
+    sat_mask(n, |a| (blocks[0] >> a) & 1 == 1)
+}
+
+fn cube_cost(cubes: &HashSet<Cube>, and_cost: i64) -> i64 {
+    cubes.iter().map(|c| and_cost * gates(CubeM::of(c).lits())).sum()
+}
+
+fn exec(ctx: &mut Ctx, ev: &Ev) {
+    let n = ev.n;
+    let (ac, xc, oc) = (ev.ints[0] as i64, ev.ints[1] as i64, ev.ints[2] as i64);
+    let fs: Vec<Lut> = ev.tabs.iter().map(|t| Lut::from_blocks(n, t)).collect();
+    let fm: Vec<Mask> = ev.tabs.iter().map(|t| fmask(n, t)).collect();
+    let nontrivial = ev.tabs.iter().any(|t| Model::from_blocks(n, t).nontrivial());
+    let cell = format!("{}|n={}|outputs={}", ev.op, n, fs.len());
+    ctx.event(&cell, ev, nontrivial);
+    let size = 1usize << n;
+    let desc = || format!("{} n={} functions={:?} costs(and={},xor={},or={})", ev.op, n, fs.iter().map(|f| f.to_string()).collect::<Vec<_>>(), ac, xc, oc);
+    match ev.op.as_str() {
+        "sop" | "sopes" => {
+            let r: Outcome<Vec<(Sop, Soes)>> = guard(|| {
+                if ev.op == "sop" {
+                    optimize_sop_mip(&fs, ac as i32, oc as i32).into_iter().map(|s| (s, Soes::zero(n))).collect()
+                } else {
+                    optimize_sopes_mip(&fs, ac as i32, xc as i32, oc as i32)
+                }
+            });
+            let forms = match r {
+                Outcome::Returned(v) => v,
+                Outcome::Panicked(m) => {
+                    ctx.violate("returns-a-form-per-function", ev, "panic", format!("{} panicked: {}", desc(), m));
+                    return;
+                }
+            };
+            if !ctx.check("returns-a-form-per-function", forms.len() == fs.len(), ev, "count", || format!("{} returned {} forms", desc(), forms.len())) {
+                return;
+            }
+            let mut used_cubes: HashSet<Cube> = HashSet::new();
+            let mut used_ecubes: HashSet<Ecube> = HashSet::new();
+            let mut ors = 0i64;
+            let mut valid = true;
+            for (j, (sop, soes)) in forms.iter().enumerate() {
+                let denotes = (0..size).all(|m| (sop.value(m) || soes.value(m)) == ((fm[j] >> m) & 1 == 1));
+                valid &= ctx.check("denotes-function", denotes && sop.num_vars() == n && soes.num_vars() == n, ev, "denotes", || format!("{}: output {} is {} | {} which is not the function", desc(), j, sop, soes));
+                let imp_c = sop.cubes().iter().all(|c| (0..size).all(|m| !c.value(m) || (fm[j] >> m) & 1 == 1) && !c.is_zero());
+                let imp_e = soes.cubes().iter().all(|c| (0..size).all(|m| !c.value(m) || (fm[j] >> m) & 1 == 1));
+                valid &= ctx.check("terms-are-implicants", imp_c && imp_e, ev, "implicant", || format!("{}: output {} uses a term that is not an implicant: {} | {}", desc(), j, sop, soes));
+                for c in sop.cubes() {
+                    used_cubes.insert(*c);
+                }
+                for c in soes.cubes() {
+                    used_ecubes.insert(*c);
+                }
+                let terms = (sop.num_cubes() + soes.num_cubes()) as i64;
+                ors += std::cmp::max(0, terms - 1);
+            }
+            if !valid {
+                return;
+            }
+            let ecost: i64 = used_ecubes.iter().map(|e| xc * gates(EcubeM::of(e).vars.count_ones() as usize)).sum();
+            let cost = cube_cost(&used_cubes, ac) + if ev.op == "sopes" { ecost } else { 0 } + oc * ors;
+            let (opt, expanded) = optimum_cover(n, &fm, ac, if ev.op == "sopes" { Some(xc) } else { None }, oc);
+            ctx.bump("oracle-states-expanded", expanded);
+            // would sharing be strictly cheaper than optimising the outputs separately?
+            if fs.len() >= 2 {
+                let sep: i64 = fm.iter().map(|f| optimum_cover(n, &[*f], ac, if ev.op == "sopes" { Some(xc) } else { None }, oc).0).sum();
+                if opt < sep {
+                    ctx.cell_only(&format!("sharing-strictly-cheaper|{}", ev.op));
+                }
+            }
+            assert!(cost >= opt, "harness: oracle optimum {} above the cost {} of a valid form ({})", opt, cost, desc());
+            ctx.check("minimum-cost", cost == opt, ev, "cost", || format!("{}: returned forms {:?} cost {} but the optimum is {}", desc(), forms.iter().map(|(s, e)| format!("{} | {}", s, e)).collect::<Vec<_>>(), cost, opt));
+        }
+        "esop" => {
+            let forms: Vec<Esop> = match guard(|| optimize_esop_mip(&fs, ac as i32, xc as i32)) {
+                Outcome::Returned(v) => v,
+                Outcome::Panicked(m) => {
+                    ctx.violate("returns-a-form-per-function", ev, "panic", format!("{} panicked: {}", desc(), m));
+                    return;
+                }
+            };
+            if !ctx.check("returns-a-form-per-function", forms.len() == fs.len(), ev, "count", || format!("{} returned {} forms", desc(), forms.len())) {
+                return;
+            }
+            let mut used: HashSet<Cube> = HashSet::new();
+            let mut xors = 0i64;
+            let mut valid = true;
+            for (j, e) in forms.iter().enumerate() {
+                let denotes = (0..size).all(|m| e.value(m) == ((fm[j] >> m) & 1 == 1));
+                valid &= ctx.check("denotes-function", denotes && e.num_vars() == n, ev, "denotes", || format!("{}: output {} is {} which is not the function", desc(), j, e));
+                // a cube used twice in one output cancels but is paid: count as the form is written
+                for c in e.cubes() {
+                    used.insert(*c);
+                }
+                xors += std::cmp::max(0, e.num_cubes() as i64 - 1);
+            }
+            if !valid {
+                return;
+            }
+            let cost = cube_cost(&used, ac) + xc * xors;
+            let (opt, expanded) = optimum_esop(n, &fm, ac, xc);
+            ctx.bump("oracle-states-expanded", expanded);
+            if fs.len() >= 2 {
+                let sep: i64 = fm.iter().map(|f| optimum_esop(n, &[*f], ac, xc).0).sum();
+                if opt < sep {
+                    ctx.cell_only("sharing-strictly-cheaper|esop");
+                }
+            }
+            assert!(cost >= opt, "harness: oracle optimum {} above the cost {} of a valid form ({})", opt, cost, desc());
+            ctx.check("minimum-cost", cost == opt, ev, "cost", || format!("{}: returned forms {:?} cost {} but the optimum is {}", desc(), forms.iter().map(|e| e.to_string()).collect::<Vec<_>>(), cost, opt));
+        }
+        other => panic!("harness: unknown op {}", other),
+    }
+}
+
+fn mk(op: &str, n: usize, fs: &[u64], costs: (i64, i64, i64)) -> Ev {
+    let mut ev = Ev::new(op, "mip", n).int64(costs.0 as u64).int64(costs.1 as u64).int64(costs.2 as u64);
+    for f in fs {
+        ev = ev.tab(&[*f]);
+    }
+    ev
+}
+
+fn main() {
+    silence_panics();
+    let cli = Cli::parse();
+    let mut ctx = cli.ctx("C18");
+    if let Some(ev) = cli.replay_event() {
+        exec(&mut ctx, &ev);
+        std::process::exit(vmon::ctx::report_replay(&ctx));
+    }
+    let thorough = ctx.thorough();
+    let seed = cli.seed;
+    let triples: Vec<(i64, i64, i64)> = if thorough {
+        let mut v = Vec::new();
+        for a in 1..=3 {
+            for x in 1..=3 {
+                for o in 1..=3 {
+                    v.push((a, x, o));
+                }
+            }
+        }
+        v
+    } else {
+        vec![(1, 1, 1), (1, 2, 3), (3, 1, 2), (2, 3, 1)]
+    };
+    // work items: (op, n, functions, costs)
+    let mut rng = Rng::new(seed ^ 0xc18);
+    let mut items: Vec<Ev> = Vec::new();
+    let ops = ["sop", "sopes", "esop"];
+    for n in 0..=2usize {
+        let count: u64 = 1u64 << (1u64 << n);
+        for x in 0..count {
+            for (ti, t) in triples.iter().enumerate() {
+                for op in ops {
+                    // single output: every function with every triple
+                    items.push(mk(op, n, &[x], *t));
+                    // two outputs: every pair, triples rotated over the pairs in quick
+                    for y in 0..count {
+                        if thorough || (x as usize * 7 + y as usize * 3 + ti) % triples.len() == 0 {
+                            items.push(mk(op, n, &[x, y], *t));
+                        }
+                    }
+                }
+            }
+        }
+    }
+    for x in 0..256u64 {
+        for (ti, t) in triples.iter().enumerate() {
+            for op in ops {
+                if thorough || (x as usize + ti) % triples.len() == 0 {
+                    items.push(mk(op, 3, &[x], *t));
+                }
+            }
+        }
+    }
+    let samples = if thorough { 600 } else { 40 };
+    for k in 0..samples {
+        let t = *rng.pick(&triples);
+        let op = ops[k % 3];
+        items.push(mk(op, 3, &[rng.next_u64() & 0xff, rng.next_u64() & 0xff], t));
+        // related outputs share more
+        let f = rng.next_u64() & 0xff;
+        let g = f ^ (1u64 << rng.below(8)) | (rng.next_u64() & rng.next_u64() & 0xff);
+        items.push(mk(ops[(k + 1) % 3], 3, &[f, g & 0xff], t));
+        if k % 2 == 0 {
+            items.push(mk(op, 4, &[rng.next_u64() & 0xffff], t));
+        }
+        let n3 = rng.range(1, 2);
+        let m3 = (1u64 << (1u64 << n3)) - 1;
+        items.push(mk(op, n3, &[rng.next_u64() & m3, rng.next_u64() & m3, rng.next_u64() & m3], t));
+    }
+    rng.shuffle(&mut items);
+    let per = 64usize;
+    let shards = (items.len() + per - 1) / per;
+    ctx.bump("work-items", items.len() as u64);
+    run_sharded(&mut ctx, cli.threads, shards, |ctx, k| {
+        for ev in items.iter().skip(k * per).take(per) {
+            exec(ctx, ev);
+        }
+    });
+    ctx.exhaustive.insert("n<=2: every single function with every cost triple".into(), true);
+    if thorough {
+        ctx.exhaustive.insert("n<=2: every pair of functions with every cost triple; n=3: every single function with every cost triple".into(), true);
+    }
+    let mut required: Vec<String> = Vec::new();
+    for op in ops {
+        for n in 0..=2 {
+            required.push(format!("{}|n={}|outputs=1", op, n));
+            required.push(format!("{}|n={}|outputs=2", op, n));
+        }
+        required.push(format!("{}|n=3|outputs=1", op));
+        required.push(format!("{}|n=3|outputs=2", op));
+        required.push(format!("{}|n=4|outputs=1", op));
+        required.push(format!("sharing-strictly-cheaper|{}", op));
+        if !ctx.cells.keys().any(|c| c.starts_with(&format!("{}|", op)) && c.ends_with("outputs=3")) {
+            required.push(format!("{}|n=2|outputs=3", op));
+        }
+    }
+    cli.finish(&ctx, &required, RULE);
+}
